@@ -38,6 +38,7 @@ pub trait Fx: StarkField {
         None
     }
     fn exp_le(self, e: &[u8]) -> Self;
+    fn exp_vartime_le(self, e: &[u8]) -> Self;
     /// integer -> element conversions offered by this field for the integer v: (name, bits of the source type, fallible, result)
     fn convs_to(v: u128) -> Vec<(&'static str, u32, bool, Option<Self>)>;
     /// element -> integer conversions: (name, bits of the target type, result)
@@ -93,6 +94,9 @@ impl Fx for f62::BaseElement {
     fn exp_le(self, e: &[u8]) -> Self {
         self.exp(le_u64(e))
     }
+    fn exp_vartime_le(self, e: &[u8]) -> Self {
+        self.exp_vartime(le_u64(e))
+    }
 }
 impl Fx for f64::BaseElement {
     fn convs_to(v: u128) -> Vec<(&'static str, u32, bool, Option<Self>)> {
@@ -129,6 +133,9 @@ impl Fx for f64::BaseElement {
     fn exp_le(self, e: &[u8]) -> Self {
         self.exp(le_u64(e))
     }
+    fn exp_vartime_le(self, e: &[u8]) -> Self {
+        self.exp_vartime(le_u64(e))
+    }
 }
 impl Fx for f128::BaseElement {
     fn convs_to(v: u128) -> Vec<(&'static str, u32, bool, Option<Self>)> {
@@ -152,6 +159,9 @@ impl Fx for f128::BaseElement {
     }
     fn exp_le(self, e: &[u8]) -> Self {
         self.exp(le_u128(e))
+    }
+    fn exp_vartime_le(self, e: &[u8]) -> Self {
+        self.exp_vartime(le_u128(e))
     }
 }
 
@@ -220,6 +230,7 @@ where
                 "inv" => Some(a.inv()),
                 "conj" => Some(a.conjugate()),
                 "exp" => Some(a.exp_le(&o.e)),
+                "exp_vartime" => Some(a.exp_vartime_le(&o.e)),
                 "mul_small" => a.mul_small_(le_u64(&o.e) as u32),
                 "add_assign" => {
                     let mut x = a;
